@@ -6,6 +6,7 @@ import (
 	"bytes"
 	"fmt"
 	"net"
+	"strings"
 	"testing"
 	"time"
 
@@ -336,6 +337,13 @@ func c16CheckSession(c C16Session) *pbt.Violation {
 }
 
 func genPw(t *rapid.T, label string) string {
+	if rapid.IntRange(0, 5).Draw(t, label+"_long") == 3 {
+		// long passwords that share a prefix and differ in length by multiples of 256, or only far behind
+		base := rapid.SampledFrom([]string{"", "hunter2", "secret"}).Draw(t, label+"_base")
+		n := rapid.SampledFrom([]int{255, 256, 257, 512, 1024, 300}).Draw(t, label+"_ext")
+		tail := rapid.SampledFrom([]string{"", "x"}).Draw(t, label+"_tail")
+		return base + strings.Repeat("p", n) + tail
+	}
 	return rapid.SampledFrom([]string{"", "a", "secret", "Secret", "secret ", "secre", "secret\x00", "пароль", "p@ss w0rd", "\xff\xfe"}).Draw(t, label)
 }
 
